@@ -149,6 +149,8 @@ class Expander:
         self.vac_sites = []  # ids of injected assert(false)
         self.clauses = 0
         self.external_fns = []
+        self.vis_narrowed = 0
+        self.after_item = []
 
     def load(self, rel):
         if rel not in self.files:
@@ -255,6 +257,8 @@ class Expander:
         for c in node["children"]:
             if c["text"].startswith("fields "):
                 fields = [x.strip() for x in c["text"][7:].split(",") if x.strip()]
+        if any(c["text"].strip() == "thiserror_from" for c in node["children"]):
+            self.synth_from_impls(rel, src, it)
         if fields is not None:
             self.do_struct_projection(rel, src, it, fields, override)
             self.out.add("\n\n", ("tmpl", node["line"]))
@@ -272,6 +276,65 @@ class Expander:
         else:
             self.emit_repo(rel, src, it.start, it.end)
         self.out.add("\n\n", ("tmpl", node["line"]))
+        for o in self.after_item:
+            self.out.add(o + "\n", ("tmpl", node["line"]))
+        self.after_item = []
+
+    def synth_from_impls(self, rel, src, it):
+        """Mechanical simulation of thiserror's `#[from]`: impl From<T> for E { fn from(e) -> E::V(e) }."""
+        toks = it.toks
+        k = it.ti_open + 1
+        out = []
+        while k < it.ti_end:
+            # variant: attrs* Name ( ... ) | { ... } | nothing  ,
+            while toks[k].text == "#":
+                k = rlex.match_close(toks, k + 1) + 1
+            if k >= it.ti_end:
+                break
+            name = toks[k].text
+            k += 1
+            if k < it.ti_end and toks[k].text in ("(", "{"):
+                close = rlex.match_close(toks, k)
+                inner = toks[k + 1:close]
+                txt = [t.text for t in inner]
+                if "from" in txt and "#" in txt:
+                    # find `# [ from ]` then the type up to ',' or end
+                    j = 0
+                    while j < len(inner):
+                        if inner[j].text == "#" and inner[j + 1].text == "[" and inner[j + 2].text == "from":
+                            j += 4
+                            fname = None
+                            if toks[k].text == "{":
+                                fname = inner[j].text
+                                j += 2  # name :
+                            ts = inner[j].start
+                            e = j
+                            depth = 0
+                            while e < len(inner):
+                                tt = inner[e].text
+                                if tt in ("<", "(", "["):
+                                    depth += 1
+                                elif tt in (">", ")", "]"):
+                                    depth -= 1
+                                elif tt == "," and depth == 0:
+                                    break
+                                e += 1
+                            ty = src[ts:inner[e - 1].end]
+                            cons = "%s::%s(e)" % (it.name, name) if fname is None else "%s::%s { %s: e }" % (it.name, name, fname)
+                            out.append("impl From<%s> for %s { fn from(e: %s) -> Self { %s } }" % (ty, it.name, ty, cons))
+                            out.append("impl vstd::std_specs::convert::FromSpecImpl<%s> for %s { open spec fn obeys_from_spec() -> bool { true } open spec fn from_spec(e: %s) -> Self { %s } }" % (ty, it.name, ty, cons))
+                            break
+                        j += 1
+                k = close + 1
+            # skip to after next comma at depth 0
+            while k < it.ti_end and toks[k].text != ",":
+                if toks[k].text in rlex.OPEN:
+                    k = rlex.match_close(toks, k)
+                k += 1
+            k += 1
+        for o in out:
+            self.after_item.append(o)
+            self.rewrites.append("%s: thiserror #[from] simulated: %s" % (rel, o[:80]))
 
     def do_struct_projection(self, rel, src, it, fields, override):
         """Emit a struct keeping only the named fields (each verbatim). Logged as a rewrite."""
@@ -341,6 +404,9 @@ class Expander:
             elif k == "sig":
                 a, b = w[1].split(" => ")
                 spec["sigsubs"].append((a.strip(), b.strip()))
+            elif k == "body_sub":
+                a, b = w[1].split(" => ")
+                spec["bodysubs"].append((a.strip(), b.strip()))
             elif k == "loop":
                 n = int(w[1])
                 d = spec["loops"].setdefault(n, {})
@@ -357,6 +423,13 @@ class Expander:
             self.out.add("    " + a + "\n", ("tmpl", fnid, "attr"))
         # signature
         sig_a = it.start
+        kw = it.toks[it.ti_kw]
+        if kw.text == "pub" and it.toks[it.ti_kw + 1].text != "(":
+            # visibility narrowed (pub -> pub(crate)): no run-time meaning; lets contracts mention private fields
+            self.emit_repo(rel, src, it.start, kw.start)
+            self.out.add("pub(crate)", ("rewrite", rel, kw.start))
+            sig_a = kw.end
+            self.vis_narrowed += 1
         if an.ret and spec["ret"]:
             self.emit_repo(rel, src, sig_a, an.ret[0])
             self.out.add("(%s: " % spec["ret"], ("rewrite", rel, an.ret[0]))
@@ -382,6 +455,7 @@ class Expander:
                 self.rewrites.append("%s: signature of %s rewritten /%s/ => %s" % (rel, fnid, a, b))
             # attribute filtering on the rebuilt text
             txt = re.sub(r"#\[(allow|inline|must_use|doc|track_caller)[^\]]*\]\s*", "", txt)
+            txt = re.sub(r"^(\s*)pub fn", r"\1pub(crate) fn", txt)
             self.out.add(txt, ("rewrite", rel, it.start))
         else:
             self.emit_repo(rel, src, sig_a, an.sig_end)
@@ -402,6 +476,7 @@ class Expander:
                 raise LostAnchor("%s: %s has %d loops, contract names loop %d" % (rel, fnid, len(loops), n))
         toks = it.toks
         pos = an.body_open
+        body_seg0 = len(self.out.segs)
         # body open brace
         self.emit_repo(rel, src, pos, pos + 1)
         pos += 1
@@ -423,6 +498,16 @@ class Expander:
                         ncl += len(spec["loops"][n][kwd])
                 pos = cut
         self.emit_repo(rel, src, pos, it.end)
+        if spec["bodysubs"]:
+            for a, b in spec["bodysubs"]:
+                hit = 0
+                for sg in self.out.segs[body_seg0:]:
+                    if sg.origin[0] == "repo" and re.search(a, sg.text):
+                        sg.text, n = re.subn(a, b, sg.text)
+                        hit += n
+                if not hit:
+                    raise LostAnchor("%s: body rewrite %r does not match in %s" % (rel, a, fnid))
+                self.rewrites.append("%s: body of %s rewritten /%s/ => %s (%d site%s)" % (rel, fnid, a, b, hit, "" if hit == 1 else "s"))
         self.out.add("\n\n", ("tmpl", fnid))
         self.fns.append({"id": fnid, "file": rel, "line": line, "body": True, "requires": len(spec["requires"]), "ensures": len(spec["ensures"]), "clauses": ncl, "loops": len(loops)})
 
@@ -498,7 +583,14 @@ class Expander:
                         notsel.append(k.name)
                 elif k.kind in ("type", "const") and k.name not in drop:
                     self.out.add("    ", ("tmpl", cname))
-                    self.emit_repo(rel, src, k.start, k.end)
+                    kk = k.toks[k.ti_kw]
+                    if kk.text == "pub" and k.toks[k.ti_kw + 1].text != "(":
+                        self.emit_repo(rel, src, k.start, kk.start)
+                        self.out.add("" if k.kind == "const" else "pub(crate)", ("rewrite", rel, kk.start))
+                        self.emit_repo(rel, src, kk.end, k.end)
+                        self.vis_narrowed += 1
+                    else:
+                        self.emit_repo(rel, src, k.start, k.end)
                     self.out.add("\n", ("tmpl", cname))
             self.out.add("}\n\n", ("repo", rel, it.toks[it.ti_end].start))
             self._container_external = False
@@ -568,6 +660,8 @@ class Expander:
                 continue
             self.out.add(ln + "\n", ("tmpl", i + 1))
             i += 1
+        if self.vis_narrowed:
+            self.rewrites.append("%d extracted `pub` fn/const items narrowed to `pub(crate)` (visibility only)" % self.vis_narrowed)
         return self.out.render()
 
 
